@@ -16,7 +16,7 @@ CLAIMS = {
          "parsers is a conversion result unless its definition carries a documented waiver (R01b); in Rule.parse every "
          "path to the final return passes origin transform, element parser and validators loop under their guards, in "
          "order, with results assigned back; early exits are the two accepted shortcuts (R01c); stores into the binding "
-         "results of the lookup strategies and parse_params are parse results (R01d). R01a splits conditional returns into their arms and treats results of foreign parse functions (json.loads, ast.literal_eval) as unconverted input. Round 4: with subclasses admitted every converter return is built by the requested class (R01e); explicitly passed options are recorded whatever their value (R10h, shared). Round 5: defaults that do not waive the guarantee (R01f); R02f and R05i shared.",
+         "results of the lookup strategies and parse_params are parse results (R01d). R01a splits conditional returns into their arms and treats results of foreign parse functions (json.loads, ast.literal_eval) as unconverted input. Round 4: with subclasses admitted every converter return is built by the requested class (R01e); explicitly passed options are recorded whatever their value (R10h, shared). Round 5: defaults that do not waive the guarantee (R01f); R02f and R05i shared. Round 6: R01b for the sequence / mapping element parsers is decided on their decision tables (a raw element in the result only under preserve).",
     note="Undecided: that each converter's constructor yields a conforming value for every input (value-level), "
          "_parse_decimal arithmetic, user-supplied converters.",
     technique="return-provenance with dominating type-guard facts, typestate (RAW/PARSED) of container stores, "
@@ -39,9 +39,9 @@ CLAIMS = {
          "mutating dict method (R07a); every write to raw storage stores the result of a parse call (R07b); every raw "
          "removal is dominated by the immutable / is_required guards (R07c); copy() binds fresh storage (R07d); setter "
          "contexts are forced, handle_error honours force_error, and the parse result is tested against the sentinel "
-         "before it is stored (R07e); the dependants recomputation is reached after every store (R07f). Accessors per field and Final immutability (R07g); keyed lookups in the fields table go through get_field (R07h). Round 5: R05i shared (item assignment converts unknown keys with the recorded addition type).",
+         "before it is stored (R07e); the dependants recomputation is reached after every store (R07f). Accessors per field and Final immutability (R07g); keyed lookups in the fields table go through get_field (R07h). Round 5: R05i shared (item assignment converts unknown keys with the recorded addition type). Round 6: R07c is asked on every class of paths (path-sensitive facts); R07e(1) is read off the handle_error decision table; R13e shared from C13.",
     note="Undecided: recomputation after deletion of a dependency; equality of the attribute and key views as values.",
-    technique="mutator-table exhaustiveness, provenance typestate (RAW/PARSED) of stored values, dominating guard facts",
+    technique="mutator-table exhaustiveness, provenance typestate (RAW/PARSED) of stored values, dominating guard facts ; path-sensitive branch facts (bounded disjuncts); handle_error decision table",
     ref="DESIGN.md 3/C07"),
  "C10": dict(
     text="Static: the may-return model of handle_error is validated against its source; at every non-forced "
@@ -49,9 +49,9 @@ CLAIMS = {
          "not index past a fallen-through range check (R10a); every context owner passes raise_error() between any "
          "point that may record an error (directly or via helpers sharing its context) and a normal return (R10b); the "
          "max_errors cap follows the append on every returning path with relation >= (R10c); only handle_error "
-         "branches on collect_errors (R10d). Options.__init__ rewrites a parameter only under a test of that parameter or a documented implication (R10f). Round 4: enter() always constructs a child context (R10g); the options merge record holds every passed option whatever its value (R10h); no made-up empty result right after a recorded error (R10i). Round 5: option defaults (R10j).",
+         "branches on collect_errors (R10d). Options.__init__ rewrites a parameter only under a test of that parameter or a documented implication (R10f). Round 4: enter() always constructs a child context (R10g); the options merge record holds every passed option whatever its value (R10h); no made-up empty result right after a recorded error (R10i). Round 5: option defaults (R10j). Round 6: R10-policy and R10c are decided on the decision table of handle_error / raise_error (369 rows); R06d from the strategy table.",
     note="Undecided: that the collected set names exactly the failing items (value-level).",
-    technique="CFG reachability avoiding flush nodes, reaching definitions over exceptional edges, who-may-read rule",
+    technique="CFG reachability avoiding flush nodes, reaching definitions over exceptional edges, who-may-read rule ; decision tables of handle_error / raise_error and of the lookup strategies",
     ref="DESIGN.md 3/C10"),
  "C16": dict(
     text="Static: every write to the registration list is followed on all paths by a reset of the resolve memo (R16a); "
@@ -77,9 +77,9 @@ CLAIMS = {
          "per action the guard vector - admissible value classes of every Options attribute tested on the way, policy "
          "literals, polarity of the field predicates, closed under summaries of is_required / is_no_input / "
          "parse_addition read from their source - is identical in both (R06a); the alias-conflict comparison compares "
-         "raw with raw (R06b); the selector is exclusive, passes identical arguments, returns the result unchanged (R06c). Consumed-input bookkeeping (R06d), case normalisation (R06e), consumed keys marked on every path from `the field got a value` (R06f), the absence/default pass iterates all declared fields (R06g). Alias tables are rebuilt from empty tables (R06h); the extra-key pass is never gated by counts and keys are marked consumed only for fields that got a value (R06i). Round 4: alias tables are replaced, never merged into in place (R06h).",
+         "raw with raw (R06b); the selector is exclusive, passes identical arguments, returns the result unchanged (R06c). Consumed-input bookkeeping (R06d), case normalisation (R06e), consumed keys marked on every path from `the field got a value` (R06f), the absence/default pass iterates all declared fields (R06g). Alias tables are rebuilt from empty tables (R06h); the extra-key pass is never gated by counts and keys are marked consumed only for fields that got a value (R06i). Round 4: alias tables are replaced, never merged into in place (R06h). Round 6: R06a/b/d/f/i/j(i)/k are decided on the decision table of the two lookup strategies - both functions interpreted by the checker's own interpreter over every combination of a finite declaration / input / option domain (3777 rows quick, 10080 thorough), compared with each other and with the documented outcome; the counter-example row is reported.",
     note="Undecided: equality of results in general (needs differential execution); ordering of result keys.",
-    technique="sibling cross-check by must-fact guard vectors over a finite value-class domain with callee summaries",
+    technique="sibling cross-check by must-fact guard vectors over a finite value-class domain with callee summaries ; finite-domain interpretation of both strategies' syntax trees (decision table, differential + reference outcome)",
     ref="DESIGN.md 3/C06"),
  "C09": dict(
     text="Static dataflow over the four branches of logical_parse (discovered from the combinator literal tested): in "
@@ -87,18 +87,18 @@ CLAIMS = {
          "reassigned input, | and ^ return the exact-type guarded input or a conversion of the original input (R09b); "
          "error discipline per branch, no return inside the ^ loop (R09c); operator methods build the combinator they "
          "denote, reflected operators keep operand order, double negation / dedupe / Any / collapse / flatten are "
-         "present (R09d). The exact-type guard is the bare comparison, not a disjunction admitting subclass instances. The union ends with an attempt under exactly the caller's options (R09e); building a combinator never modifies its operands (R09f); no break on the accepting path of ^. Round 4: enter() opens a new layer on every path (R10g) and handle_error records before it raises (R10c), both shared with C10. Round 5: combine / combine_by decided as tables by the interpreter (R09d); R10e shared.",
+         "present (R09d). The exact-type guard is the bare comparison, not a disjunction admitting subclass instances. The union ends with an attempt under exactly the caller's options (R09e); building a combinator never modifies its operands (R09f); no break on the accepting path of ^. Round 4: enter() opens a new layer on every path (R10g) and handle_error records before it raises (R10c), both shared with C10. Round 5: combine / combine_by decided as tables by the interpreter (R09d); R10e shared. Round 6: R09a/b/c are decided on the behaviour table of logical_parse (every scenario of accepting / rejecting attempts x caller flags x input class x fail-fast / collecting, 429 rows, interpreted over modelled objects), R09e on its stage table.",
     note="Undecided: 'accepts exactly when at least one accepts' as a relation over inputs.",
-    technique="reaching definitions of the conversion subject per branch, provenance of returned values, guard facts; finite-domain abstract interpretation of combine / combine_by",
+    technique="reaching definitions of the conversion subject per branch, provenance of returned values, guard facts; finite-domain abstract interpretation of combine / combine_by ; finite-domain interpretation of logical_parse (behaviour and stage tables)",
     ref="DESIGN.md 3/C09"),
  "C18": dict(
     text="Static: route tested None-exactly, depth inherited, +1 on the no-route branch only, compared with > (R18a); "
          "every context.enter passes a non-None route and enter() chains context/route/options (R18b); data-class "
          "contexts are created with the caller's context along every hop (R18c); each staged retry of the union is "
          "guarded so that it is skipped when the current options already include the stage's flags - truth table over "
-         "the guard - with a final unconditional stage (R18d). Every write to the depth is the inherit form or the single increment and the depth error is raised, not collected (R18a); the creating context's conversion flags must survive the data-class boundary (R18e, known finding F34); no branch re-enters the combinator on its own input (R18f). Only enumerated data-class / function entries create a route-less context chained to a parent (R18g); length rejections precede conversions and no handler retries its own conversion (R18h). Round 4: context factories hand out the class's own options (R18i); a declared __init__ gets a parentless context (R18c, known finding F51); Options as class decorator returns a substitute subclass (R18j, known finding F52); R10b shared. Round 5: depth accounting decided by symbolic evaluation of the constructor over its 8 input shapes (R18a); option default (R18k).",
+         "the guard - with a final unconditional stage (R18d). Every write to the depth is the inherit form or the single increment and the depth error is raised, not collected (R18a); the creating context's conversion flags must survive the data-class boundary (R18e, known finding F34); no branch re-enters the combinator on its own input (R18f). Only enumerated data-class / function entries create a route-less context chained to a parent (R18g); length rejections precede conversions and no handler retries its own conversion (R18h). Round 4: context factories hand out the class's own options (R18i); a declared __init__ gets a parentless context (R18c, known finding F51); Options as class decorator returns a substitute subclass (R18j, known finding F52); R10b shared. Round 5: depth accounting decided by symbolic evaluation of the constructor over its 8 input shapes (R18a); option default (R18k). Round 6: R18d reads the stage table of logical_parse; R18l: class options are found through attribute lookup (inherited).",
     note="Undecided: the asymptotic bound as a measured quantity.",
-    technique="None-exactness lint on the route parameter, call-chain argument flow, finite truth-table evaluation of guards; symbolic evaluation of the depth arithmetic over the constructor's input shapes",
+    technique="None-exactness lint on the route parameter, call-chain argument flow, finite truth-table evaluation of guards; symbolic evaluation of the depth arithmetic over the constructor's input shapes ; union stage table",
     ref="DESIGN.md 3/C18"),
  "C05": dict(
     text="Static enforcement skeleton of the field contract (not the contract itself): defaults are handed out through "
@@ -107,19 +107,19 @@ CLAIMS = {
          "is_required, nothing stored afterwards, defaults only when not required, is_required honours ignore_required / "
          "always_no_input (R05c); parse_addition is the ordered switch False->ExceedError, falsy->drop, no type->keep, "
          "type->convert (R05d); no_output gates before mapping stores, option precedence in get_default, lookup order "
-         "name->alias->case-insensitive (R05e). A field's own alias_from overrides the alias generator (R05f); parse-time defaults bind defer=False effectively, explicit or via the callee's declared default (R05g); a key that matched a declared field is marked consumed on every path (R06f). Inherited fields merge farthest-base-first (R05h); R05g covers every get_default call site. Round 4: alias tables rebuilt from the current fields (R06h, shared). Round 5: get_default is decided as a decision table by the checker's interpreter over its full finite domain (R05a/R05e); addition-type table (R05i); option defaults (R05j); R06e shared.",
+         "name->alias->case-insensitive (R05e). A field's own alias_from overrides the alias generator (R05f); parse-time defaults bind defer=False effectively, explicit or via the callee's declared default (R05g); a key that matched a declared field is marked consumed on every path (R06f). Inherited fields merge farthest-base-first (R05h); R05g covers every get_default call site. Round 4: alias tables rebuilt from the current fields (R06h, shared). Round 5: get_default is decided as a decision table by the checker's interpreter over its full finite domain (R05a/R05e); addition-type table (R05i); option defaults (R05j); R06e shared. Round 6: the lookup-strategy parts of R05b / R05c are read off the strategy decision table (C06); R18l (inherited class options) shared from C18.",
     note="Undecided (the core): alias/case tables as values, mode strings, option interactions - needs a reference model "
          "over declarations x inputs.",
-    technique="must-pass-through / dominating guard facts per enforcement point, dead-branch (ordering) check on the switch; finite-domain abstract interpretation of get_default and parse_addition_type",
+    technique="must-pass-through / dominating guard facts per enforcement point, dead-branch (ordering) check on the switch; finite-domain abstract interpretation of get_default and parse_addition_type ; strategy decision table (finite-domain interpretation)",
     ref="DESIGN.md 3/C05"),
  "C11": dict(
     text="Static policy matrix: every catch-all handler around a conversion that consults an exclude/preserve policy is "
          "partitioned by the policy literal - EXCLUDE warns, never raises and reaches no store / value return; PRESERVE "
          "warns, never raises and reaches a store / return of exactly the raw element that failed; otherwise a ParseError "
          "goes to handle_error; the policy attribute matches the element kind (R11a); required fields raise under EXCLUDE "
-         "(R11b); element parsers apply only operations every dispatched container type supports (R04c). Every policy-guarded conversion runs on a child context from enter() (R11c). Under EXCLUDE parse_value returns get_default(...) (R11d); R10f also runs here. Round 4: the per-field input policy comes from the field's own Field (R11g); R10h shared. Round 5: option defaults (R11h); policy facts normalised over == / != and branch arms.",
+         "(R11b); element parsers apply only operations every dispatched container type supports (R04c). Every policy-guarded conversion runs on a child context from enter() (R11c). Under EXCLUDE parse_value returns get_default(...) (R11d); R10f also runs here. Round 4: the per-field input policy comes from the field's own Field (R11g); R10h shared. Round 5: option defaults (R11h); policy facts normalised over == / != and branch arms. Round 6: R11a for the sequence / mapping element parsers is decided on their decision tables (336 rows: per position converting / failing x policy x fail-fast / collecting); R11e reads the stage table of logical_parse.",
     note="Undecided: the metamorphic equality with the filtered input (value-level).",
-    technique="handler partition by policy atoms, CFG reachability of stores/returns per partition, provenance of the preserved element",
+    technique="handler partition by policy atoms, CFG reachability of stores/returns per partition, provenance of the preserved element ; element-parser decision tables; union stage table",
     ref="DESIGN.md 3/C11"),
  "C08": dict(
     text="Static wrapper discipline (the binding arithmetic itself is undecided): every wrapper kind creates a per-call "
@@ -139,7 +139,7 @@ CLAIMS = {
          "return types are re-resolved, nested types recursively (R17b); the late re-parse applies the constraints, key, "
          "pending table and globals stored with the pending reference (R17c); apply/__call__ dereference an evaluated "
          "ForwardRef before dispatch and raise for an unevaluated one (R17d); local-scope resets happen after "
-         "re-resolution and classes can resolve their own name (R17e). Each pending entry stores the reference object of its own annotation (R17f). The re-resolution hook is guarded by `resolved` only, ClassParser.globals always injects the class, evaluate_forward_ref passes the namespaces through unchanged (R17g). Round 4: base parsers are resolved before a subclass (R17i); loop flags accumulate (R17j); re-resolution descends into a combined origin (R17k); R16d shared.",
+         "re-resolution and classes can resolve their own name (R17e). Each pending entry stores the reference object of its own annotation (R17f). The re-resolution hook is guarded by `resolved` only, ClassParser.globals always injects the class, evaluate_forward_ref passes the namespaces through unchanged (R17g). Round 4: base parsers are resolved before a subclass (R17i); loop flags accumulate (R17j); re-resolution descends into a combined origin (R17k); R16d shared. Round 6: the resolved-indicator of the resolution worker is found by role (a flag or a collection of resolved references).",
     note="Undecided (the core): behavioural equivalence with the directly written declaration for every order of "
          "definition and first use.",
     technique="dominance / must-pass-through at entries, argument-flow checks on the late re-parse, statement order on the CFG",
@@ -152,12 +152,12 @@ CLAIMS = {
          "tuple-surplus gate reads the flag (R12b); each enumerated lossy operation (collection collapse, lenient "
          "decode, datetime/timed text to date with a full midnight comparison, datetime to time, truthiness fallback, "
          "fractional int, list to data class incl. element fast paths) is separated from no_data_loss by a raising test "
-         "or a strict variant (R12c); the union's retry stages only raise flags (R12d). Round 5: option defaults (R12e); guards compared as clauses (De Morgan / comparison complements).",
+         "or a strict variant (R12c); the union's retry stages only raise flags (R12d). Round 5: option defaults (R12e); guards compared as clauses (De Morgan / comparison complements). Round 6: R12d reads the union's stages off the stage table of logical_parse and checks that the first accepting attempt in stage order wins; the tuple surplus gate is decided on the facts of the reject.",
     note="Undecided (the core): that whatever converts under the flags converts to an equal value without them, and "
          "value preservation, as relations over all (source, target) pairs. Observed, not derivable: for Union[int, str] "
          "and 3.5 no_explicit_cast gives 3 while the lenient result is '3.5'.",
     technique="interprocedural flag-read sets per converter against a requirement table, default-value evaluation of "
-              "a guard, dominating raise-guard facts in front of enumerated lossy operations, keyword check of stage options",
+              "a guard, dominating raise-guard facts in front of enumerated lossy operations, keyword check of stage options ; union stage table (finite-domain interpretation)",
     ref="DESIGN.md 3/C12"),
  "C13": dict(
     text="Static tables-and-views check of the JSON-Schema generator (not validity of whole documents): constraint, "
